@@ -324,18 +324,51 @@ func runEngineCase(c engineCase) (res engineResult) {
 				side.Elem().FieldByName("Node").Elem().Elem().FieldByName("List").Len() > 0
 		}
 		mids, pids := map[token.Pos]int{}, map[token.Pos]int{}
+		// the implicit leading "..." is left out when the statements begin with a "..." at the very place it would be
+		// put (same line and column): id 0 in the model's PStmts
+		leads := func(side reflect.Value, poss []token.Pos) bool {
+			if len(poss) == 0 {
+				return true
+			}
+			l := side.Elem().FieldByName("Node").Elem().Elem().FieldByName("List")
+			es, ok := l.Index(0).Interface().(*ast.ExprStmt)
+			if !ok {
+				return true
+			}
+			if reflect.TypeOf(es.X).String() != "*pgo.Dots" {
+				return true
+			}
+			a, b := fset.Position(es.X.Pos()), fset.Position(start)
+			return !(a.Line == b.Line && a.Column == b.Column)
+		}
+		mlead, plead := true, true
 		if isStmts(minus) {
-			mposs = append([]token.Pos{start}, append(mposs, end)...)
+			mlead = leads(minus, mposs)
+			if mlead {
+				mposs = append([]token.Pos{start}, mposs...)
+			}
+			mposs = append(mposs, end)
 		}
 		if isStmts(plus) {
-			pposs = append([]token.Pos{start}, append(pposs, end)...)
+			plead = leads(plus, pposs)
+			if plead {
+				pposs = append([]token.Pos{start}, pposs...)
+			}
+			pposs = append(pposs, end)
 		}
 		mtab := dotsTable(fset, mposs, mids, 0)
 		ptab := dotsTable(fset, pposs, pids, 1000)
 		wm := &valWriter{in: in, dots: mids}
 		wp := &valWriter{in: in, dots: pids}
-		mnode, mpkg, mimps := patternSx(wm, fset, minus, mids[start], mids[end])
-		pnode, ppkg, pimps := patternSx(wp, fset, plus, pids[start], pids[end])
+		mstart, pstart := mids[start], pids[start]
+		if !mlead {
+			mstart = 0
+		}
+		if !plead {
+			pstart = 0
+		}
+		mnode, mpkg, mimps := patternSx(wm, fset, minus, mstart, mids[end])
+		pnode, ppkg, pimps := patternSx(wp, fset, plus, pstart, pids[end])
 		// metavariables: the table is read off the PARSED declarations of this change (parse.Meta), not
 		// off what engine.compileMeta made of them; the two are compared below
 		decl := map[string]string{}
